@@ -2,14 +2,15 @@
    observable canonically.  The fixed directory tree [tree_files] is the one harness/src/bin/c16.rs
    creates under its temporary root. *)
 From Coq Require Import String.
-From AV Require Import Lib.Base Lib.V Gen.Consts Files.PathBuf Files.Range Files.Named Files.ChunkedRead.
+From AV Require Import Lib.Base Lib.V Gen.Consts Files.PathBuf Files.Range Files.Named Files.ChunkedRead Files.Service.
 Open Scope N_scope.
 
 Inductive case :=
 | CPath (hidden : bool) (s : bytes)                       (* PathBufWrap::parse_path(s, hidden) *)
-| CServe (hidden : bool) (unprocessed : bytes)            (* FilesService::call on the fixed tree *)
+| CServe (hidden try_compressed index : bool) (unprocessed : bytes) (neg : list N)
+                                                          (* FilesService::call on the fixed tree *)
 | CRange (hdr : bytes) (size : N)                         (* HttpRange::parse(hdr, size) *)
-| CResp (size : N) (range : option bytes) (im inm ius ims : N)   (* NamedFile::into_response + body *)
+| CResp (size : N) (range : option bytes) (im inm ius ims thr : N)   (* NamedFile::into_response + body *)
 | CTrunc (size actual : N) (range : option bytes)         (* file truncated to [actual] after open *)
 | CStd (base p : bytes).                                  (* std::path: components(p), base.join(p) *)
 
@@ -24,7 +25,11 @@ Definition pp (hidden : bool) (s : bytes) : R parsed := parse_path utf8_valid fa
 Definition tree_files : list (list bytes) :=
   [ [hx "61"]; [hx "c3a9"]; [hx "2e61"]; [hx "612a"]; [hx "5c"]; [hx "253265253265"]; [hx "25"];
     [hx "612e61"]; [hx "612e2e"]; [hx "2e2e2e"];
-    [hx "6161"; hx "61"]; [hx "6161"; hx "2e61"]; [hx "6161"; hx "c3a9"] ].
+    [hx "6161"; hx "61"]; [hx "6161"; hx "2e61"]; [hx "6161"; hx "c3a9"];
+    (* a.txt a.txt.gz a.txt.br a.gz aa.gz aa/a.gz aa/a.zst b.zst big.bin *)
+    [hx "612e747874"]; [hx "612e7478742e677a"]; [hx "612e7478742e6272"]; [hx "612e677a"]; [hx "61612e677a"];
+    [hx "6161"; hx "612e677a"]; [hx "6161"; hx "612e7a7374"]; [hx "622e7a7374"]; [hx "6269672e62696e"] ].
+Definition tree_dirs : list (list bytes) := [ []; [hx "6161"] ].
 
 Fixpoint segs_eqb (a b : list bytes) : bool :=
   match a, b with
@@ -33,12 +38,49 @@ Fixpoint segs_eqb (a b : list bytes) : bool :=
   | _, _ => false
   end.
 
-(* FilesService::call after a successful parse, one directory, no index, no listing:
-   a regular file is served; everything else (missing, directory, path through a file, a name
-   containing NUL, which the operating-system layer refuses) is 404 *)
-Definition serve (segs : list bytes) : N * option bytes :=
-  if existsb (segs_eqb segs) tree_files then (200, Some (render segs))
-  else (404, None).
+(* the configured directory (its real name is a temporary path; only its shape matters) *)
+Definition ROOT : bytes := hx "2f722f6f6f74".   (* "/r/oot" *)
+
+Definition comp_eqb (a b : component) : bool :=
+  match a, b with
+  | CRoot, CRoot | CCur, CCur | CParent, CParent => true
+  | CNormal x, CNormal y => bytes_eqb x y
+  | _, _ => false
+  end.
+Fixpoint strip_comps (p cs : list component) : option (list component) :=
+  match p, cs with
+  | [], _ => Some cs
+  | a :: p', b :: cs' => if comp_eqb a b then strip_comps p' cs' else None
+  | _ :: _, [] => None
+  end.
+Fixpoint normal_names (cs : list component) : option (list bytes) :=
+  match cs with
+  | [] => Some []
+  | CNormal s :: r => match normal_names r with Some l => Some (s :: l) | None => None end
+  | _ => None
+  end.
+(* names below ROOT, if the path is ROOT followed by plain names *)
+Definition rel (cs : list component) : option (list bytes) :=
+  match strip_comps (components ROOT) cs with Some r => normal_names r | None => None end.
+
+(* the file-system oracle of the fixed tree; nothing exists outside it as far as the model looks *)
+Definition tree_fs (cs : list component) : fkind :=
+  match rel cs with
+  | Some names => if existsb (segs_eqb names) tree_files then KFile
+                  else if existsb (segs_eqb names) tree_dirs then KDir else KNone
+  | None => KNone
+  end.
+
+(* FilesService::call after a successful parse: status, served file (relative), Content-Encoding *)
+Definition serve (tc index : bool) (segs : list bytes) (neg : list N) : N * option bytes * option N :=
+  match call tree_fs tc (if index then Some (hx "61") else None) ROOT segs neg with
+  | Served opened enc =>
+      match rel opened with
+      | Some names => (200, Some (render names), enc)
+      | None => (200, None, enc)          (* outside the root: never (ServiceProofs.call_under_root) *)
+      end
+  | Miss => (404, None, None)
+  end.
 
 Definition cond_of (im inm ius ims : N) : cond :=
   mkCond (negb ((im =? 3) || (im =? 4)))
@@ -60,12 +102,14 @@ Definition VCr (c : crange) : V :=
   | CRUnsat t => VT "unsat" [VN t]
   end.
 
-Definition full_sched (length : N) : list N :=
-  repeat u64_max (S (S (N.to_nat (length / FILES_CHUNK_SIZE)))).
+Definition full_sched (length : N) : list (nat * N) :=
+  repeat (0%nat, u64_max) (S (S (N.to_nat (length / FILES_CHUNK_SIZE)))).
 
+(* each chunk with the file position its bytes come from *)
 Fixpoint chunk_lens (evs : list ev) : list V :=
   match evs with
-  | EChunk _ n :: r => VN n :: chunk_lens r
+  | EChunk off n :: r => VT "c" [VOpt VN (Some off); VN n] :: chunk_lens r
+  | EWait _ :: r => chunk_lens r
   | _ => []
   end.
 Fixpoint has_err (evs : list ev) : bool :=
@@ -75,7 +119,7 @@ Fixpoint has_err (evs : list ev) : bool :=
   | _ :: r => has_err r
   end.
 
-Definition VResp (flen_on_disk : N) (r : R resp) : V :=
+Definition VResp (flen_on_disk thr : N) (r : R resp) : V :=
   match r with
   | Panic => VT "panic" []
   | Val r =>
@@ -85,7 +129,7 @@ Definition VResp (flen_on_disk : N) (r : R resp) : V :=
                     end in
       match body r with
       | Some (offset, length) =>
-          match read_loop FILES_CHUNK_SIZE flen_on_disk (full_sched length) length offset 0 with
+          match read_loop FILES_CHUNK_SIZE flen_on_disk (mode_of length thr) (full_sched length) length offset 0 with
           | Panic => VT "panic" []
           | Val evs =>
               VT "resp" [VN (status r); VOpt VCr (content_range r); size_v;
@@ -107,13 +151,13 @@ Definition run_C16 (c : case) : V :=
           let j2 := join (hx "722f2e2f6f6f742f") (render segs) in      (* "r/./oot/" *)
           VT "ok" [VBytes (render segs); VL (map VBytes segs); VBytes j1; VComps j1; VBytes j2; VComps j2]
       end
-  | CServe hidden u =>
+  | CServe hidden tc index u neg =>
       match pp hidden u with
       | Panic => VT "panic" []
-      | Val (PErr e) => VT "serve" [VN 400; VOpt VBytes None; VOpt VBytes None]
+      | Val (PErr e) => VT "serve" [VN 400; VOpt VBytes None; VOpt VBytes None; VOpt VN None]
       | Val (POk segs) =>
-          let '(st, f) := serve segs in
-          VT "serve" [VN st; VOpt VBytes f; VOpt VBytes (Some (render segs))]
+          let '(st, f, enc) := serve tc index segs neg in
+          VT "serve" [VN st; VOpt VBytes f; VOpt VBytes (Some (render segs)); VOpt VN enc]
       end
   | CRange hdr size =>
       match parse_bytes hdr size with
@@ -122,9 +166,11 @@ Definition run_C16 (c : case) : V :=
       | Val (RErr NoOverlap) => VT "err" [VN 1]
       | Val (ROk rs) => VT "ok" [VL (map (fun r => VT "r" [VN (r_start r); VN (r_length r)]) rs)]
       end
-  | CResp size range im inm ius ims =>
-      VResp size (into_response true size range (cond_of im inm ius ims))
+  | CResp size range im inm ius ims thr =>
+      VResp size thr (into_response true size range (cond_of im inm ius ims))
   | CTrunc size actual range =>
-      VResp actual (into_response true size range (cond_of 0 0 0 0))
-  | CStd base p => VT "std" [VComps p; VBytes (join base p); VComps (join base p)]
+      VResp actual 0 (into_response true size range (cond_of 0 0 0 0))
+  | CStd base p =>
+      VT "std" [VComps p; VBytes (join base p); VComps (join base p);
+                VL (map VComp (set_file_name (components (join base p)) (hx "782e677a")))]   (* "x.gz" *)
   end.
